@@ -384,6 +384,63 @@ theorem tokMatch_iff (p : List Tok) : ∀ s, tokMatch p s = true ↔ Matches p s
         | one _ => cases hp
         | @many p' s1 s2 h => cases hp; exact ⟨s1, s2, rfl, (ih s2).2 h⟩
 
+/-! ### corollaries of the specification -/
+
+def lits (cs : List Nat) : List Tok := cs.map Tok.lit
+
+theorem tokMatch_lits (cs s : List Nat) : tokMatch (lits cs) s = (cs == s) := by
+  induction cs generalizing s with
+  | nil => cases s <;> simp [lits, tokMatch]
+  | cons c cs ih =>
+    cases s with
+    | nil => simp [lits, tokMatch]
+    | cons d s =>
+      have := ih s
+      simp only [lits] at this
+      simp [lits, tokMatch, this]
+
+theorem tokMatch_many_all (s : List Nat) : tokMatch [.many] s = true := by
+  rw [tokMatch_iff]
+  have := Matches.many (p := []) (s1 := s) (s2 := []) .nil
+  simpa using this
+
+theorem tokMatch_prefix (cs s : List Nat) : tokMatch (lits cs ++ [.many]) s = cs.isPrefixOf s := by
+  induction cs generalizing s with
+  | nil => simp [lits, tokMatch_many_all]
+  | cons c cs ih =>
+    cases s with
+    | nil => simp [lits, tokMatch]
+    | cons d s =>
+      have := ih s
+      simp only [lits] at this
+      simp [lits, tokMatch, this, List.isPrefixOf]
+
+/-- a pattern without `%`, `_`, `\` is read as literals -/
+theorem likeTokens_plain_all (p : List Nat) (h : ∀ c ∈ p, c ≠ cBackslash ∧ c ≠ cUnderscore ∧ c ≠ cPercent) :
+    likeTokens p = some (lits p) := by
+  induction p with
+  | nil => rfl
+  | cons c rest ih =>
+    obtain ⟨h1, h2, h3⟩ := h c (by simp)
+    rw [likeTokens_plain c rest (by simpa using h1)]
+    rw [ih (fun x hx => h x (by simp [hx]))]
+    simp [h2, h3, lits]
+
+/-- `MatchString` of an unanchored alternative: some substring is in the language -/
+theorem search_unanchored_iff (body : Re) (s : List Nat) :
+    Pat.search [⟨false, body, false⟩] s = true ↔ ∃ s1 m s2, s = s1 ++ m ++ s2 ∧ Re.Lang body m := by
+  simp only [Pat.search, List.any_cons, List.any_nil, Bool.or_false, Branch.search]
+  rw [Re.accepts_iff]
+  constructor
+  · intro h
+    obtain ⟨s1, t, hs, _, h2⟩ := Re.cat_inv h
+    obtain ⟨m, s2, ht, hm, _⟩ := Re.cat_inv h2
+    exact ⟨s1, m, s2, by rw [hs, ht, List.append_assoc], hm⟩
+  · intro ⟨s1, m, s2, hs, hm⟩
+    rw [hs, List.append_assoc]
+    exact Re.Lang.cat (Re.lang_anyStar s1) (Re.Lang.cat hm (Re.lang_anyStar s2))
+
+
 /-! ### the text is valid UTF-8, so `regexp.Compile` sees exactly the runes written -/
 
 theorem likeTokens_lits : ∀ (n : Nat) (p : List Rune), p.length ≤ n → ∀ toks, likeTokens p = some toks →
